@@ -217,7 +217,7 @@ class Splicer:
 
     def discover(self):
         """Find all files of the unit starting at the root file (mod x; declarations)."""
-        todo = [self.u.root_file] + [f for (f, _) in self.u.extra_files]
+        todo = ([self.u.root_file] if self.u.root_file else []) + [f for (f, _) in self.u.extra_files]
         seen = []
         while todo:
             f = todo.pop(0)
@@ -596,7 +596,7 @@ class Splicer:
         self.discover()
         for gen_fn in u.generators:
             gen_fn(self)
-        root_pieces = self.process_file(u.root_file)
+        root_pieces = self.process_file(u.root_file) if u.root_file else [('ins', getattr(u, 'root_text', ''), {'glue': 'synthetic root'})]
         for (xf, modname) in u.extra_files:
             sub = self.process_file(xf)
             root_pieces.append(('ins', '\npub mod %s {\n' % modname + u.extra_uses + u.header.get(xf, ''), {'glue': 'extra mod open ' + xf}))
@@ -613,9 +613,9 @@ class Splicer:
         pieces.append(('ins', 'use vstd::prelude::*;\n', {'glue': 'head'}))
         for pf in u.prelude_files:
             pieces.append(('ins', open(pf).read() + '\n', {'glue': 'prelude ' + pf}))
-        pieces.append(('ins', 'verus!{\n' + u.extra_uses + u.header.get(u.root_file, ''), {'glue': 'verus open'}))
+        pieces.append(('ins', 'verus!{\n' + u.extra_uses + (u.header.get(u.root_file, '') if u.root_file else ''), {'glue': 'verus open'}))
         pieces += root_pieces
-        pieces.append(('ins', u.appendix.get(u.root_file, '') + '\n} // verus!\nfn main(){}\n', {'glue': 'verus close'}))
+        pieces.append(('ins', (u.appendix.get(u.root_file, '') if u.root_file else '') + '\n} // verus!\nfn main(){}\n', {'glue': 'verus close'}))
         g.pieces = pieces
         out = []
         pos = 0
